@@ -18,7 +18,8 @@ def describe(P, cfg):
     c = {"ca": cfg.get("ca", 0), "vh": cfg.get("vh", 0), "dh": cfg.get("dh", 0), "height": cfg.get("height", 64),
          "mode": cfg.get("mode", "solve"), "var": cfg.get("var", 0),
          "decision": cfg.get("decision", list(range(len(P["doms"])))),
-         "vparams": cfg.get("vparams") or [], "dparams": cfg.get("dparams") or [], "ent": cfg.get("ent", 1)}
+         "vparams": cfg.get("vparams") or [], "dparams": cfg.get("dparams") or [], "ent": cfg.get("ent", 1),
+         "sched": cfg.get("sched", 0)}
     D["cfg"] = c
     return D
 
@@ -100,7 +101,22 @@ def fam_circuit(n, seed):
             k += 1
 
 
+def fam_sched(n, seed):
+    """every wake-up order: 2-3 constraints, plain bound consistency, default heuristics"""
+    for P, cfg in fam_pairs(n, seed):
+        yield P, {"sched": 1, "ent": 1}
+    r = random.Random(seed + 1)
+    k = 0
+    while k < n // 3:
+        P = problems.random_problem(r, cap=40, flavour=r.choice(["int", "bool", "alias"]))
+        if any(c["alg"] not in MC_ALGS for c in P["props"]) or len(P["props"]) > 3:
+            continue
+        yield P, {"sched": 1, "ent": 1, "height": 16}
+        k += 1
+
+
 FAMS = {
+    "sched": fam_sched,
     "circuit": fam_circuit,
     "core": fam_core,
     "pairs": fam_pairs,
